@@ -402,6 +402,30 @@ def run(tier):
         f = F.fn("<%s as saphyr::loader::LoadableYamlNode>::with_span" % ty)
         st = [cfg.expr_operand(f, s["rv"]["a"], 4) for bi, si, s in cfg.stmts(f) if s["k"] == "assign" and cfg.place_fields(s["lhs"]) == ["span"] and s["rv"]["k"] == "use"]
         rep.check(st == [("param", 2)], "with-span-stores", short(ty), "with_span does not store its argument in the node's span", site=f.span, detail=str(st))
+    # (h) a reported position is a value the cursor held: Marker fields are written only through Scanner.mark, Marker values are built only
+    # by Marker::new / Default, and Marker::new is given constants only (initial and placeholder positions) -- no position is computed aside
+    MARKER = "saphyr_parser::scanner::Marker"
+    nbuild = 0
+    for k, f in sorted(F.fns.items()):
+        if f.crate != "saphyr_parser" or "::test" in k:
+            continue
+        own = f.d.get("impl_adt") == MARKER or ("<" + MARKER + " as ") in k
+        for bi, si, s in cfg.stmts(f):
+            if s["k"] != "assign":
+                continue
+            ow = cfg.place_field_owners(s["lhs"])
+            if ow and ow[-1][0] == MARKER and not own and (len(ow) < 2 or ow[-2] != (SCANNER, "mark")):
+                rep.bad("position-from-cursor", "%s writes %s of a Marker that is not the cursor" % (short(k), ow[-1][1]),
+                        "a position is computed on a copy of the cursor: every reported position must be a value Scanner.mark held", site=site(f, s["sp"]))
+            if s["rv"]["k"] == "agg" and s["rv"].get("adt") == MARKER:
+                nbuild += 1
+                rep.check(own, "position-from-cursor", "%s builds a Marker" % short(k), "a Marker is assembled outside Marker::new/default", site=site(f, s["sp"]))
+        for bb, t, ck, fr in f.calls():
+            if ck == MARKER + "::new":
+                allc = all(op_const(a) is not None for a in t["args"])
+                rep.check(allc, "position-from-cursor", "%s calls Marker::new" % short(k), "Marker::new is given a computed position (only initial and placeholder constants are built this way)",
+                          site=site(f, t["sp"]))
+    rep.floor("Marker constructions", nbuild, 1)
     return rep
 
 
